@@ -52,3 +52,110 @@ def simple_doc(content, npages=1, resources=None, extra=None, page_extra=None):
     objs[2] = {"Type": "Pages", "Kids": kids, "Count": npages}
     objs.update(extra or {})
     return build(objs)
+
+
+# ---------------------------------------------------------------------------------------------------------------------
+# incremental updates in every physical form (classic table, cross-reference stream, hybrid; objects direct or in object streams)
+def _obj_bytes(n, o):
+    out = b"%d 0 obj\n" % n
+    if isinstance(o, Stream):
+        d = dict(o.d)
+        d["Length"] = len(o.data)
+        out += ser(d) + b"\nstream\n" + o.data + b"\nendstream"
+    else:
+        out += ser(o)
+    return out + b"\nendobj\n"
+
+
+def build_history(revisions, eol=b"\n"):
+    """revisions: list (oldest first) of dicts
+         {"objs": {n: value|Stream}, "form": "table"|"stream"|"hybrid", "packed": set of object numbers stored in an object stream,
+          "free": set of object numbers marked free}
+       Object numbers 900+k (xref stream of revision k), 800+k (object stream of revision k) are reserved.  Returns the file bytes."""
+    out = bytearray(b"%PDF-1.5\n%\xe2\xe3\xcf\xd3\n")
+    prev = None
+    size = 1 + max([max(r["objs"]) for r in revisions if r["objs"]] + [0])
+    size = max(size, 1000)
+    for k, rev in enumerate(revisions):
+        form = rev.get("form", "table")
+        packed = set(rev.get("packed", ())) if form != "table" else set()
+        packed = {n for n in packed if not isinstance(rev["objs"][n], Stream)}
+        entries = {}                      # n -> ("n", offset) | ("o", strmid, index) | ("f",)
+        for n, o in sorted(rev["objs"].items()):
+            if n in packed:
+                continue
+            entries[n] = ("n", len(out))
+            out += _obj_bytes(n, o)
+        for n in rev.get("free", ()):
+            entries[n] = ("f",)
+        if packed:
+            sid = 800 + k
+            nums = sorted(packed)
+            bodies, head = b"", b""
+            for i, n in enumerate(nums):
+                head += b"%d %d " % (n, len(bodies))
+                bodies += ser(rev["objs"][n]) + b" "
+                entries[n] = ("o", sid, i)
+            data = head + bodies
+            entries[sid] = ("n", len(out))
+            out += _obj_bytes(sid, Stream({"Type": "ObjStm", "N": len(nums), "First": len(head)}, data))
+        trailer = {"Size": size, "Root": Ref(rev.get("root", 1))}
+        if prev is not None:
+            trailer["Prev"] = prev
+
+        def table(ents):
+            t = b"xref" + eol
+            nums = sorted(ents)
+            i = 0
+            while i < len(nums):
+                j = i
+                while j + 1 < len(nums) and nums[j + 1] == nums[j] + 1:
+                    j += 1
+                t += b"%d %d" % (nums[i], j - i + 1) + eol
+                for n in nums[i:j + 1]:
+                    e = ents[n]
+                    t += (b"%010d 00000 n \n" % e[1]) if e[0] == "n" else b"0000000000 65535 f \n"
+                i = j + 1
+            return t
+
+        def xstream(ents, extra):
+            xid = 900 + k
+            pos = len(out)
+            ents = dict(ents)
+            ents[xid] = ("n", pos)
+            nums = sorted(ents)
+            index, data = [], b""
+            i = 0
+            while i < len(nums):
+                j = i
+                while j + 1 < len(nums) and nums[j + 1] == nums[j] + 1:
+                    j += 1
+                index += [nums[i], j - i + 1]
+                for n in nums[i:j + 1]:
+                    e = ents[n]
+                    if e[0] == "n":
+                        data += bytes([1]) + e[1].to_bytes(3, "big") + bytes([0])
+                    elif e[0] == "o":
+                        data += bytes([2]) + e[1].to_bytes(3, "big") + bytes([e[2]])
+                    else:
+                        data += bytes([0, 0, 0, 0, 0])
+                i = j + 1
+            d = dict(extra, Type="XRef", Index=index, W=[1, 3, 1])
+            return pos, _obj_bytes(xid, Stream(d, data))
+        if form == "table":
+            x = len(out)
+            out += table(entries) + b"trailer" + eol + ser(trailer) + eol
+        elif form == "stream":
+            x, blob = xstream(entries, trailer)
+            out += blob
+        else:                            # hybrid: classic table for the uncompressed objects + XRefStm for the packed ones
+            hidden = {n: e for n, e in entries.items() if e[0] == "o"}
+            shown = {n: e for n, e in entries.items() if e[0] != "o"}
+            sx, blob = xstream(hidden, {"Size": size})
+            out += blob
+            x = len(out)
+            t2 = dict(trailer, XRefStm=sx)
+            out += table(shown) + b"trailer" + eol + ser(t2) + eol
+        out += b"startxref" + eol + b"%d" % x + eol + b"%%EOF" + eol
+        prev = x
+    return bytes(out)
